@@ -27,5 +27,5 @@ def params(p, W, base_bits, g_find=True):
     half = (pow(2, -1, p) * R) % p
     bitmask = (1 << p.bit_length()) - 1
     return dict(PRIME=p, MU=mu, R2=r2, G=(g * R) % p, NUM_ROOTS=num_roots, BIT_MASK=bitmask, ROOTS=roots, HALF=half)
-for name, p, W, bb in [("FP8", 17, 8, 8), ("FP8B", 251, 8, 8), ("FP16", 61441, 16, 16), ("FP16S", 61441, 16, 8), ("FP16T", 65521, 16, 8)]:
+for name, p, W, bb in [("FP8", 17, 8, 8), ("FP8B", 251, 8, 8), ("FP16", 61441, 16, 16), ("FP16S", 61441, 16, 8), ("FP16T", 65269, 16, 8)]:
     print(name, params(p, W, bb))
